@@ -13,8 +13,25 @@ holds a paragraph ("text", default) / nothing but the images ("bare") / a paragr
                     ods also "cell": frames inside cell A1 instead of the sheet's table:shapes
     epub            relative | dot | parent | missing | external   (img/@src forms; a repeated id is one manifest item)
     pdf             own | shared                               (one XObject per anchor / per image key; JPEG only)
+                    arr1 | flate | a85 | ahx | rl | <f>+<g>     (one XObject per anchor whose /Filter is an ARRAY: [/DCTDecode] alone, or
+                                                                the JPEG file additionally deflated / ASCII-85 / ASCII-hex / run-length
+                                                                wrapped, the filters listed in decoding order in front of /DCTDecode;
+                                                                <f>+<g> = two wrappers, e.g. a85+flate = [/ASCII85Decode /FlateDecode
+                                                                /DCTDecode]; verif.gen.pdfw image_filters)
     rtf             hex | hex64 | shppict                      (\\pict hex on one line / wrapped every 64 bytes / in \\*\\shppict)
     ppt/xls         blip                                       (OfficeArt BLIP; PNG, JPEG, BMP-as-DIB)
+`linked` (odt/odp/ods/odg only; goes with a `ref` of LINK_REFS) - links that LEAVE the package next to embedded pictures:
+    {"ref": "link_parent" | "link_root" | "link_parent2" | "link_dotparent" | "link_file" | "link_http", "linked": "01"}
+    `linked` has one character per anchor in document order; "1" = this draw:image does not reference the package member
+    Pictures/k<id>.<ext> but an IRI that resolves OUTSIDE the package and merely ends in that member name (ODF 1.2 part 3, 3.7: a
+    relative path starting with "../", an absolute path "/..", or an absolute IRI): ../Pictures/k0.png (what LibreOffice writes for a
+    linked picture) | /Pictures/k0.png | ../../Pictures/k0.png | ./../Pictures/k0.png | file:///Pictures/k0.png |
+    http://verif.invalid/Pictures/k0.png.  "0" = an ordinary embedded picture (plain href).  The member Pictures/k<id>.<ext> of
+    EVERY id is stored in the package and listed in the manifest, whether an embedded anchor uses it or not, so every link has a
+    like-named member.  Ground truth: the embedded anchors only; a linked anchor must not produce an image (same as "external").
+    Enumerated: every layout of 1..2 anchors (kinds: png 1x1, jpeg 640x480; thorough: + gif 3x2 and 1..3 anchors), every identity
+    pattern, every split over 1..2 units, every non-empty set of linked anchors, per link form (quick: link_parent, link_root,
+    link_dotparent; thorough: all six).
 `env` (docx/pptx/xlsx only, optional; absent = the package exactly as the reference writer emits it) is the relationship
 neighbourhood of the pictures, see verif/props/c14_pkg.py:
     {"neigh": 1}                  the parts that reference pictures also carry what such parts usually carry: xlsx sheets a cell
@@ -75,6 +92,21 @@ LEVEL = "exploration"
 
 DIMS_ALL = ["1x1", "3x2", "640x480"]
 DIMS_QUICK = ["1x1", "640x480"]
+# PDF: /Filter arrays of the image XObject = the wrappers that are undone before /DCTDecode, in decoding order (pdfw image_filters)
+_PDF_WRAP = {"flate": "FlateDecode", "a85": "ASCII85Decode", "ahx": "ASCIIHexDecode", "rl": "RunLengthDecode"}
+PDF_CHAINS = {"arr1": []}
+PDF_CHAINS.update({a: [_PDF_WRAP[a]] for a in _PDF_WRAP})
+PDF_CHAINS.update({a + "+" + b: [_PDF_WRAP[a], _PDF_WRAP[b]] for a in _PDF_WRAP for b in _PDF_WRAP})
+PDF_CHAINS_QUICK = ["arr1", "flate", "a85", "ahx", "rl", "a85+flate"]
+PDF_CHAINS_LAY = ["arr1", "flate"]          # chains that are also combined with every file layout of the JPEG (thorough; the ASCII wrappers
+                                            # of a 1 MiB file cost seconds per case in pypdf's pure-Python decoders and add nothing)
+# ODF: IRIs that leave the package but end in the name of a package member (prefix in front of Pictures/k<id>.<ext>)
+LINK_REFS = {"link_parent": "../", "link_root": "/", "link_parent2": "../../", "link_dotparent": "./../", "link_file": "file:///",
+             "link_http": "http://verif.invalid/"}
+LINK_REFS_QUICK = ["link_parent", "link_root", "link_dotparent"]
+LINK_FORMATS = ("odt", "odp", "ods", "odg")
+LINK_KINDS_QUICK = [("png", "1x1"), ("jpeg", "640x480")]
+LINK_KINDS_ALL = [("png", "1x1"), ("jpeg", "640x480"), ("gif", "3x2")]
 IMG_FORMATS = {"docx": ["png", "jpeg", "gif", "bmp"], "pptx": ["png", "jpeg", "gif", "bmp"], "xlsx": ["png", "jpeg", "gif", "bmp"],
                "odt": ["png", "jpeg", "gif", "bmp"], "odp": ["png", "jpeg", "gif", "bmp"], "ods": ["png", "jpeg", "gif", "bmp"],
                "odg": ["png", "jpeg", "gif", "bmp"], "epub": ["png", "jpeg", "gif", "bmp"], "pdf": ["jpeg"],
@@ -85,7 +117,7 @@ REFS = {"docx": ["relative", "parent", "absolute", "shared", "dup_rid_parts", "m
         "odt": ["plain", "dot", "missing", "external"], "odp": ["plain", "dot", "missing", "external"],
         "ods": ["plain", "dot", "cell", "missing", "external"], "odg": ["plain", "dot", "missing", "external"],
         "epub": ["relative", "dot", "parent", "missing", "external"],
-        "pdf": ["own", "shared"], "rtf": ["hex", "hex64", "shppict"], "ppt": ["blip"], "xls": ["blip"]}
+        "pdf": ["own", "shared"] + list(PDF_CHAINS), "rtf": ["hex", "hex64", "shppict"], "ppt": ["blip"], "xls": ["blip"]}
 DOC_FORMATS = list(REFS)
 NO_IMAGE_REFS = {"missing", "external"}                 # references that must simply not produce an image
 ONLY_REPEATS = {"shared", "dup_rid_parts"}              # identical to "relative" unless an id repeats
@@ -147,6 +179,8 @@ def cases_for(tier, fmt):
     kmax = 2 if quick else 3
     kinds = [(f, d) for f in IMG_FORMATS[fmt] for d in dims]
     for ref in REFS[fmt]:
+        if quick and ref in PDF_CHAINS and ref not in PDF_CHAINS_QUICK:
+            continue
         km = min(kmax, 2) if ref in NO_IMAGE_REFS else kmax
         for units in layouts(kinds, km):
             if ref in ONLY_REPEATS and not has_repeat(units):
@@ -169,12 +203,20 @@ def cases_for(tier, fmt):
             for units in layouts(ekinds, 1):
                 for env in PKG.envs():
                     yield {"units": units, "ref": ref0, "var": "bare", "env": env}
+    # links that leave the package, next to embedded pictures and like-named members (ODF)
+    if fmt in LINK_FORMATS:
+        for ref in (LINK_REFS_QUICK if quick else list(LINK_REFS)):
+            for units in layouts(LINK_KINDS_QUICK if quick else LINK_KINDS_ALL, kmax):
+                n = sum(len(u) for u in units)
+                for mask in itertools.product("01", repeat=n):
+                    if "1" in mask:
+                        yield {"units": units, "ref": ref, "var": "text", "linked": "".join(mask)}
     # file layouts of the image itself: every layout of 1..2 anchors over {the image in layout L, a plain 1x1 companion} that uses L
     companion = (IMG_FORMATS[fmt][0], "1x1")
     lays = LAY_QUICK if quick else LAY_ALL
     for f in IMG_FORMATS[fmt]:
         for lay in lays[f]:
-            for ref in ([ref0] if quick else [r for r in REFS[fmt] if r not in NO_IMAGE_REFS]):
+            for ref in ([ref0] if quick else [r for r in REFS[fmt] if r not in NO_IMAGE_REFS and (r not in PDF_CHAINS or r in PDF_CHAINS_LAY)]):
                 for units in layouts([(f, LAY_DIM, lay), companion], 2, max_units=(2 if (ref == ref0 and not quick) else 1)):
                     if not any(lay_of(im) == lay for u in units for im in u):
                         continue
@@ -194,8 +236,25 @@ def image_bytes(im):
     return IMG.make(im[0], w, h, im[2] + 1, lay_of(im))
 
 
+def embedded_units(case):
+    """the units with the anchors that EMBED their picture (linked anchors removed)"""
+    mask = case.get("linked")
+    if not mask:
+        return case["units"]
+    it = iter(mask)
+    return [[im for im in u if next(it) == "0"] for u in case["units"]]
+
+
 def _valid_case(fmt, case):
-    if fmt not in REFS or case.get("ref") not in REFS[fmt] or case.get("var", "text") not in ("text", "bare", "tbl"):
+    if fmt not in REFS or case.get("var", "text") not in ("text", "bare", "tbl"):
+        return False
+    if "linked" in case:
+        mask = case["linked"]
+        if fmt not in LINK_FORMATS or case.get("ref") not in LINK_REFS or not isinstance(mask, str) or "1" not in mask or set(mask) - set("01"):
+            return False
+        if not isinstance(case.get("units"), list) or len(mask) != sum(len(u) for u in case["units"]) or "env" in case:
+            return False
+    elif case.get("ref") not in REFS[fmt]:
         return False
     if "env" in case:
         # only the canonical spelling (non-default components) of a neighbourhood is a case
@@ -267,7 +326,9 @@ def render(fmt, case, tk):
             if ref == "external":
                 oi[k] = ("http://verif.invalid/%s.%s" % (k, ext), ext)
             else:
-                oi[k] = (data, ext, {"href": "plain" if ref == "cell" else ref})
+                oi[k] = (data, ext, {"href": "plain" if (ref == "cell" or ref in LINK_REFS) else ref})
+        if ref in LINK_REFS:
+            return _render_odf_links(fmt, case, tk, imgs, oi, text_blocks, tbl_blocks)
         if fmt == "ods":
             if var == "tbl":
                 raise NotImplementedError("a sheet is its own table")
@@ -318,6 +379,8 @@ def render(fmt, case, tk):
         if var == "tbl":
             raise NotImplementedError("no tables in the PDF writer")
         doc = ["doc", {}, [["unit", text_blocks() + [["img", keyof(im)] for im in u], {}] for u in units]]
+        if ref in PDF_CHAINS:
+            return pdfw.pdf(doc, imgs, {"image_filters": list(PDF_CHAINS[ref])})
         return pdfw.pdf(doc, imgs, {"shared_images": ref == "shared"})
     if fmt == "rtf":
         from verif.gen import rtf
@@ -339,6 +402,45 @@ def render(fmt, case, tk):
         pics = [[si, keyof(im)] for si, u in enumerate(units) for im in u]
         return biff8.xls(doc, {k: v[0] for k, v in imgs.items()}, {"pictures": pics})
     raise ValueError(fmt)
+
+
+def _render_odf_links(fmt, case, tk, imgs, oi, text_blocks, tbl_blocks):
+    """ODF package in which the anchors marked in case["linked"] reference <prefix>Pictures/k<id>.<ext> (an IRI outside the package)
+    while the member Pictures/k<id>.<ext> of every id is stored: referenced by the embedded anchors, or as an unreferenced member"""
+    import zipfile
+    from verif.gen import odf
+    units, var, prefix = case["units"], case.get("var", "text"), LINK_REFS[case["ref"]]
+    keyof = lambda im: "k%d" % im[2]   # noqa
+    member = {k: "Pictures/%s.%s" % (k, ext) for k, (_, ext) in imgs.items()}
+    it = iter(case["linked"])
+    keys = []                       # per unit: the image key of every anchor (k<id> embedded, k<id>L linked)
+    embedded = set()
+    for u in units:
+        row = []
+        for im in u:
+            k = keyof(im)
+            if next(it) == "1":
+                oi[k + "L"] = (prefix + member[k], imgs[k][1])
+                row.append(k + "L")
+            else:
+                embedded.add(k)
+                row.append(k)
+        keys.append(row)
+    extra = {member[k]: (imgs[k][0], IMG.CTYPE[imgs[k][1]]) for k in imgs if k not in embedded}
+    opts = {"extra_files": extra} if extra else {}
+    if fmt == "ods":
+        if var != "text":
+            raise NotImplementedError("link cases use the text variant")
+        doc = ["doc", {}, [["sheet", tk.new("N"), [[["s", tk.new("C")], ["i", 5]], [["s", tk.new("C")], ["i", 7]]]] for u in units]]
+        opts["images_at"] = [[si, k] for si, row in enumerate(keys) for k in row]
+        data = odf.ods(doc, oi, opts)
+    else:
+        doc = ["doc", {}, [["unit", text_blocks(heading=(fmt == "odp")) + [["img", k] for k in row] + tbl_blocks(), {}] for row in keys]]
+        data = getattr(odf, fmt)(doc, oi, opts or None)
+    names = set(zipfile.ZipFile(io.BytesIO(data)).namelist())
+    if not set(member.values()) <= names:
+        raise RuntimeError("reference writer did not store %s" % sorted(set(member.values()) - names))
+    return data
 
 
 # ------------------------------------------------------------------------------------------------ observation
@@ -441,7 +543,7 @@ def inclusion_fails(obs, unit_kind):
 
 
 def judge(fmt, case, obs):
-    units, ref = case["units"], case["ref"]
+    units, ref = embedded_units(case), case["ref"]         # ground truth: the anchors that embed a picture (links produce nothing)
     fails = []
     kind = "page" if fmt in PAGE_FORMATS else ("sheet" if fmt in SHEET_FORMATS else "flow")
     # ---- ground truth
@@ -682,8 +784,54 @@ def _renumber(units):
     return out
 
 
+def _shrinks_linked(case):
+    """towards the package without links (the embedded anchors alone, plain hrefs), then fewer units / anchors / links, simpler kinds"""
+    units, mask, ref, var = case["units"], case["linked"], case["ref"], case.get("var", "text")
+    yield {"units": _renumber(embedded_units(case)), "ref": "plain", "var": var}
+    flat = []                                     # (unit index, image, link bit) per anchor
+    it = iter(mask)
+    for ui, u in enumerate(units):
+        flat += [(ui, list(im), next(it)) for im in u]
+
+    def build(anchors, nunits):
+        m = "".join(a[2] for a in anchors)
+        if "1" not in m:
+            return None
+        return {"units": _renumber([[a[1] for a in anchors if a[0] == ui] for ui in range(nunits)]), "ref": ref, "var": var, "linked": m}
+    cands = []
+    if len(units) == 2:
+        for keep in (0, 1):
+            cands.append(build([(0, im, bit) for ui, im, bit in flat if ui == keep], 1))
+        cands.append(build([(0, im, bit) for _, im, bit in flat], 1))
+    for i in range(len(flat)):
+        cands.append(build(flat[:i] + flat[i + 1:], len(units)))
+    for i, (ui, im, bit) in enumerate(flat):
+        if bit == "1":
+            cands.append(build(flat[:i] + [(ui, im, "0")] + flat[i + 1:], len(units)))
+    # a shared identity becomes two images
+    ids = [a[1][2] for a in flat]
+    for i, a in enumerate(flat):
+        if a[1][2] in ids[:i]:
+            cands.append(build(flat[:i] + [(a[0], [a[1][0], a[1][1], max(ids) + 1] + a[1][3:], a[2])] + flat[i + 1:], len(units)))
+            break
+    # simplest kind per identity (png 1x1)
+    for ident in sorted(set(ids)):
+        f, d = next((a[1][0], a[1][1]) for a in flat if a[1][2] == ident)
+        for nf, nd in ([("png", "1x1")] if (f, d) != ("png", "1x1") else []) + ([(f, "1x1")] if d != "1x1" and f != "png" else []):
+            cands.append(build([(a[0], [nf, nd, ident] if a[1][2] == ident else a[1], a[2]) for a in flat], len(units)))
+    # the form LibreOffice writes
+    if ref != "link_parent":
+        cands.append(dict(case, ref="link_parent"))
+    for c in cands:
+        if c is not None and c != case:
+            yield c
+
+
 def shrinks(case):
     if "fixture" in case:
+        return
+    if "linked" in case:
+        yield from _shrinks_linked(case)
         return
     if "env" in case:
         # towards the writer's own package: no neighbourhood at all, then one component at a time (rev -> nfirst -> writer)
@@ -712,6 +860,11 @@ def shrinks(case):
         # the default reference shape of the container (the candidates of other containers are not valid cases and never fail)
         for d in sorted({r[0] for r in REFS.values() if case["ref"] in r and r[0] != case["ref"]}):
             yield {"units": units, "ref": d, "var": var}
+        if case["ref"] in PDF_CHAINS:
+            # less of the same construction: the bare array, then the most common wrapper alone, then each wrapper of a chain alone
+            for d in ["arr1", "flate"] + case["ref"].split("+"):
+                if d != case["ref"] and not (d == "arr1" and not PDF_CHAINS[case["ref"]]):
+                    yield {"units": units, "ref": d, "var": var}
     # fewer units
     if len(units) == 2:
         for keep in (0, 1):
@@ -775,6 +928,11 @@ def embeds(small, big):
     shrinker falls back to when they do not matter) match any."""
     if "fixture" in small or "fixture" in big:
         return small == big
+    if "linked" in small:
+        return "linked" in big and small["ref"] == big["ref"] and _embeds_linked(small, big)
+    if "linked" in big:
+        # a shape without links explains a package with links through its embedded anchors alone
+        big = {"units": embedded_units(big), "ref": "plain", "var": big.get("var", "text")}
     if small["ref"] != big["ref"]:
         if not (small["ref"] in _default_refs(big["ref"]) and big["ref"] not in NO_IMAGE_REFS):
             return False
@@ -808,6 +966,30 @@ def embeds(small, big):
         return False
     # a minimal shape that needs a repeated identity is only explained by a case that has one
     return (not has_repeat(su)) or has_repeat(bu)
+
+
+def _embeds_linked(small, big):
+    """anchors of small (with their link bits) embed in those of big unit by unit (one unit of small: in one unit of big or in the
+    flattened document); simplest kind (png 1x1) matches any; a repeated identity needs a repeated identity"""
+    def ann(case):
+        it = iter(case["linked"])
+        return [[(im, next(it)) for im in u] for u in case["units"]]
+
+    def kmatch(a, b):
+        return a[1] == b[1] and (a[0][0] == "png" or a[0][0] == b[0][0]) and (a[0][1] == "1x1" or a[0][1] == b[0][1])
+
+    def sub(a, b):
+        it = iter(b)
+        return all(any(kmatch(x, y) for y in it) for x in a)
+    su, bu = ann(small), ann(big)
+    if len(su) > len(bu):
+        return False
+    if len(su) == 1:
+        flat = [x for u in bu for x in u]
+        ok = any(sub(su[0], c) for c in ([flat] if len(bu) == 1 else [bu[0], bu[1], flat]))
+    else:
+        ok = all(sub(a, b) for a, b in zip(su, bu))
+    return ok and ((not has_repeat(small["units"])) or has_repeat(big["units"]))
 
 
 def fingerprint_view(case):
@@ -845,7 +1027,7 @@ def _part(arg):
 def run(ctx):
     args = []
     for fmt in DOC_FORMATS + ["fixture"]:
-        n = 16 if fmt in ("docx", "pptx", "xlsx", "odt", "odp", "ods", "odg", "epub", "fixture") else 8
+        n = 16 if fmt in ("docx", "pptx", "xlsx", "odt", "odp", "ods", "odg", "epub", "pdf", "fixture") else 8
         if ctx.quick:
             n = max(4, n // 2)
         args += [(ctx.tier, fmt, k, n, ctx.seed) for k in range(n)]
@@ -875,6 +1057,12 @@ def run(ctx):
                    "fill bytes / Exif thumbnail / frame header behind > 64 KiB of metadata segments for JPEG, large ancillary chunks for "
                    "PNG, GIF87a, top-down and V5-header BMP; thorough: + SOF1, 256 KiB, 1 MiB, RGBA): every layout of 1..2 anchors over "
                    "{640x480 image in that layout, plain 1x1 companion} that uses it; "
+                   "pdf additionally with the image XObject's /Filter written as an array: [/DCTDecode] alone and the JPEG file wrapped in "
+                   "Flate / ASCII85 / ASCIIHex / RunLength (+ a85+flate; thorough: all 16 two-wrapper chains) in front of /DCTDecode, over the "
+                   "same 0..K anchor layouts; odt/odp/ods/odg additionally with links that leave the package (../ , / , ./../ ; thorough: + "
+                   "../../ , file:/// , http://) but end in the name of a stored package member: every layout of 1..K anchors over LINK kinds, "
+                   "every identity pattern and split, every non-empty set of linked anchors (the rest embed the like-named member; the member "
+                   "of every id is stored); "
                    "every supported fixture file (inclusion clauses only); each package written by the reference writers, extracted by "
                    "the real extractor and judged against the bytes the harness embedded; distinct_nontrivial = distinct "
                    "(format, reference shape, anchors, images returned, units, tables, failing clauses) classes",
@@ -884,6 +1072,11 @@ def run(ctx):
                                           "image_file_layouts": {"layouts": LAY_QUICK if ctx.quick else LAY_ALL, "dim": LAY_DIM, "anchors": "1..2",
                                                                  "units": "1" if ctx.quick else "1..2 (default reference shape), 1 (others)",
                                                                  "refs": "default" if ctx.quick else "every image-producing shape"},
+                                          "pdf_filter_chains": {k: PDF_CHAINS[k] + ["DCTDecode"] for k in (PDF_CHAINS_QUICK if ctx.quick else PDF_CHAINS)},
+                                          "odf_links": {"formats": list(LINK_FORMATS), "anchors": "1..%d" % (2 if ctx.quick else 3),
+                                                        "forms": {k: LINK_REFS[k] + "Pictures/k<id>.<ext>" for k in (LINK_REFS_QUICK if ctx.quick else LINK_REFS)},
+                                                        "kinds": LINK_KINDS_QUICK if ctx.quick else LINK_KINDS_ALL,
+                                                        "linked_sets": "every non-empty subset of the anchors", "members": "one per id, always stored"},
                                           "env": {"formats": list(ENV_FORMATS), "neighbourhoods": PKG.envs(),
                                                   "kinds": ENV_KINDS_QUICK if ctx.quick else ENV_KINDS_ALL,
                                                   "refs": ENV_REFS_QUICK if ctx.quick else ENV_REFS_ALL}}}
@@ -907,6 +1100,12 @@ ASSUMPTIONS = [
     "(87a and 89a); a PNG in IHDR.  The thumbnail inside an Exif segment is not an image of the document",
     "odf: the draw:frame is 1cm x 1cm whatever the pixel size of the file; 'pixel size' is judged against the image file header",
     "missing / external references: no image may be returned for them (an entry with empty bytes counts as an image) and nothing may raise",
+    "odf links: an xlink:href that is a relative path starting with '../' (after removing './' segments), an absolute path '/...' or an "
+    "absolute IRI (file:, http:) does not name a member of the package (ODF 1.2 part 3, 3.7) even when its tail equals the name of a "
+    "stored member; such a draw:image is a link to a file outside the document and, like 'external', must not produce an image; a "
+    "stored Pictures/ member that no anchor embeds is not 'placed in the body' and must not be returned either",
+    "pdf: a /Filter array lists the filters in decoding order (ISO 32000-1 7.4.1, table 5); the embedded file is what remains after "
+    "the wrappers in front of /DCTDecode are undone, and its content type is that of the last filter (image/jpeg)",
     "epub: the manifest lists the images in anchor order (document order of an EPUB is not settled between manifest and spine)",
     "OPC packages: the order of the Relationship elements of a .rels part, the spelling of relationship ids and the presence of "
     "relationships of other types (comments, vmlDrawing, hyperlink, theme, notesSlide) do not change which pictures a document "
